@@ -29,6 +29,8 @@ def shards(tier):
             out.append(dict(op="transfer", sgeo=sg, dgeo=dg, k=2, steps=2, partition_by=pb, washes=[1], ncand=2 if tier == "quick" else 4, comp=False))
     out.append(dict(op="transfer", sgeo="p2x2", dgeo="p2x2", same=True, k=2, steps=2, partition_by="auto", washes=[1], ncand=2, comp=(tier == "thorough")))
     out.append(dict(op="transfer", sgeo="p2x2", dgeo="p2x2", same=True, k=1, steps=2, partition_by="auto", washes=[1], comp=True))
+    # a well that is first a destination and then a source within one call (chained), with composition tracking
+    out.append(dict(op="transfer", sgeo="p3x2", dgeo="p3x2", same=True, k=2, steps=1, partition_by="auto", washes=[1], cands=[[0, 1], [1, 2]], comp=True, wl_max=common.BIG * 2))
     out.append(dict(op="base", sgeo="t3x2", dgeo="p2x2", k=1, steps=1))
     out.append(dict(op="misc", sgeo="p2x2", dgeo="p2x2", k=1, steps=1))
     return out
